@@ -52,6 +52,7 @@ class RuleCtx:
         return self.repo.func(qual)
 
     def new_eval(self) -> Evaluator:
+        anf.INT_ATOMS.clear()        # integer facts are established per evaluation, never inherited
         self.ev = Evaluator(self.lk, inline_depth=6 if self.ctx.thorough else 4)
         return self.ev
 
@@ -166,10 +167,68 @@ def split_at_loop(fi: FuncInfo, which: int = 0, kind=(ast.For, ast.While)):
     """(statements before, the loop, statements after) for the `which`-th top-level loop of the body."""
     body = fi.node.body
     idxs = [i for i, st in enumerate(body) if isinstance(st, kind)]
+    if len(idxs) <= which and ast.For in (kind if isinstance(kind, tuple) else (kind,)):
+        body = desugar_comprehensions(fi)
+        idxs = [i for i, st in enumerate(body) if isinstance(st, kind)]
     if len(idxs) <= which:
         raise AnalysisError(f"{fi.qualname}: expected a top-level loop #{which} - shape not recognised")
     k = idxs[which]
     return body[:k], body[k], body[k + 1:]
+
+
+_DESUGARED: Dict[int, list] = {}
+
+
+def desugar_comprehensions(fi: FuncInfo) -> list:
+    """`t = F([E for v in IT if C])`  ==>  `t__items = []; for v in IT: (if C:) t__items.append(E); t = F(t__items)`.
+
+    A list comprehension is a loop; writing it out lets the loop rules read it.  Only top-level
+    assignments to one name with exactly one single-generator list comprehension are rewritten, and
+    only when the comprehension variable is bound nowhere else in the function (a comprehension
+    variable does not leak, a loop variable does)."""
+    from ..model import keep
+    if id(fi.node) in _DESUGARED:
+        return _DESUGARED[id(fi.node)]
+    out = []
+    bound_elsewhere = {}
+    for n in ast.walk(fi.node):
+        if isinstance(n, ast.Name) and isinstance(n.ctx, ast.Store):
+            bound_elsewhere[n.id] = bound_elsewhere.get(n.id, 0) + 1
+    for a in fi.node.args.args + fi.node.args.kwonlyargs:
+        bound_elsewhere[a.arg] = bound_elsewhere.get(a.arg, 0) + 1
+    for st in fi.node.body:
+        comps = [n for n in ast.walk(st) if isinstance(n, ast.ListComp)] if isinstance(st, ast.Assign) else []
+        if not (len(comps) == 1 and len(st.targets) == 1 and isinstance(st.targets[0], ast.Name) and len(comps[0].generators) == 1
+                and not comps[0].generators[0].is_async and isinstance(comps[0].generators[0].target, ast.Name)
+                and bound_elsewhere.get(comps[0].generators[0].target.id, 0) == 1
+                and not any(isinstance(n, (ast.Lambda, ast.GeneratorExp, ast.SetComp, ast.DictComp)) for n in ast.walk(st))):
+            out.append(st)
+            continue
+        comp = comps[0]
+        gen = comp.generators[0]
+        items = st.targets[0].id + "__items"
+        src = (f"{items} = []\nfor {gen.target.id} in {ast.unparse(gen.iter)}:\n"
+               + "".join(f"    if not ({ast.unparse(c)}):\n        continue\n" for c in gen.ifs)
+               + f"    {items}.append({ast.unparse(comp.elt)})\n")
+
+        class Sub(ast.NodeTransformer):
+            def visit_ListComp(self, node):
+                return ast.Name(id=items, ctx=ast.Load())
+        import copy
+        tail = Sub().visit(copy.deepcopy(st))
+        new = ast.parse(src).body + [tail]
+        for nn in new:
+            for sub in ast.walk(nn):
+                if not hasattr(sub, "lineno") or True:
+                    ast.copy_location(sub, st) if isinstance(sub, (ast.expr, ast.stmt)) else None
+            ast.fix_missing_locations(nn)
+            keep(nn)
+            for sub in ast.walk(nn):
+                fi.module.node_scope[id(sub)] = fi.scope
+        out.extend(new)
+    _DESUGARED[id(fi.node)] = out
+    keep(fi.node)
+    return out
 
 
 def stored_names(node) -> List[str]:
@@ -296,6 +355,10 @@ def bind_loop(ev: Evaluator, fr, loop: ast.For, env: Dict[str, Any]) -> Optional
 
     def element(arrv, pos):
         if isinstance(arrv, Vec) and arrv.kind == "point" and arrv.items and isinstance(arrv.items[0], Rat) and arrv.items[0].is_array():
+            ats = [single_atom(c) for c in arrv.items]
+            if all(a is not None and a.kind == "fn" and a.name == "slice" and a.args[2].symbols() == {"None"} for a in ats) \
+                    and all(a.args[1].equals(ats[0].args[1]) for a in ats) and (ats[0].args[1].is_const() is None or ats[0].args[1].is_const() >= 0):
+                return ("slice", Vec([a.args[0] for a in ats], "point"), ats[0].args[1]), None
             return Vec([anf.opaque("at", c, pos, array=False) for c in arrv.items], "point"), ev.length_of(arrv)
         if isinstance(arrv, Rat) and arrv.is_array():
             a = single_atom(arrv)
@@ -310,7 +373,10 @@ def bind_loop(ev: Evaluator, fr, loop: ast.For, env: Dict[str, Any]) -> Optional
     if isinstance(el, tuple) and el and el[0] == "slice":
         _t, base, slo = el
         lo = slo
-        el = anf.opaque("at", base, idx, array=False)
+        if isinstance(base, Vec):
+            el = Vec([anf.opaque("at", c, idx, array=False) for c in base.items], "point")
+        else:
+            el = anf.opaque("at", base, idx, array=False)
         n = ev.length_of(base)
     if el is None:
         return None
